@@ -4,7 +4,7 @@
 # pointing at it (use while a long run is reading /repo). Scratch lives under /tmp/iso (remove when done).
 set -u
 P="$(readlink -f "$1")"; shift
-ISO=/tmp/iso
+ISO=${ISO:-/tmp/iso}
 mkdir -p $ISO
 git -C /repo worktree prune
 if [ ! -d $ISO/repo ]; then git -C /repo worktree add -q --detach $ISO/repo HEAD || exit 2; fi
